@@ -36,7 +36,7 @@ import (
 	"time"
 )
 
-var c13bImporters = []string{"revolut2", "revolut", "wise", "swissquote"}
+var c13bImporters = []string{"revolut2", "revolut", "wise", "swissquote", "interactivebrokers"}
 
 var c13bUse = map[string]string{"revolut2": "revolut2", "revolut": "revolut", "wise": "com.wise",
 	"swissquote": "ch.swissquote", "interactivebrokers": "us.interactivebrokers"}
@@ -1150,11 +1150,323 @@ func c13bGenSwissquote(r *rng, mal string) c13bCase {
 	return c
 }
 
+// ---------------------------------------------------------------- interactivebrokers
+
+// decimal.Round(2): half away from zero, on the generator's rationals
+func c13bRound2(q *big.Rat) *big.Rat {
+	neg := q.Sign() < 0
+	v := new(big.Rat).Abs(q)
+	v.Mul(v, big.NewRat(100, 1))
+	n, rem := new(big.Int).QuoRem(v.Num(), v.Denom(), new(big.Int))
+	if rem.Mul(rem, big.NewInt(2)).Cmp(v.Denom()) >= 0 {
+		n.Add(n, big.NewInt(1))
+	}
+	res := new(big.Rat).SetFrac(n, big.NewInt(100))
+	if neg {
+		res.Neg(res)
+	}
+	return res
+}
+
+// a number with d decimals, as IB writes it (thousands separators in quoted fields now and then)
+func c13bIBNum(r *rng, q *big.Rat, d int) string {
+	t := q.FloatString(d)
+	if i := strings.Index(strings.TrimPrefix(t, "-"), "."); (i > 3 || (i < 0 && len(strings.TrimPrefix(t, "-")) > 3)) && r.chance(40) {
+		neg := strings.HasPrefix(t, "-")
+		u := strings.TrimPrefix(t, "-")
+		ip, fp := u, ""
+		if j := strings.Index(u, "."); j >= 0 {
+			ip, fp = u[:j], u[j:]
+		}
+		var b []byte
+		for k := 0; k < len(ip); k++ {
+			if k > 0 && (len(ip)-k)%3 == 0 {
+				b = append(b, ',')
+			}
+			b = append(b, ip[k])
+		}
+		t = string(b) + fp
+		if neg {
+			t = "-" + t
+		}
+	}
+	return t
+}
+
+func c13bGenIB(r *rng, mal string) c13bCase {
+	c := c13bCase{imp: "interactivebrokers", flags: map[string]string{
+		"acct":    pick(r, []string{"Assets:IB", "Assets:Broker:InteractiveBrokers", "Assets:I"}),
+		"div":     pick(r, []string{"Income:Dividends", "Income:D"}),
+		"int":     pick(r, []string{"Expenses:Interest", "Income:Interest"}),
+		"tax":     pick(r, []string{"Expenses:Tax", "Expenses:Taxes:Withholding"}),
+		"fee":     pick(r, []string{"Expenses:Fees", "Expenses:Broker:Fees"}),
+		"trading": pick(r, []string{"Expenses:Trading", "Equity:Trading", "Income:Trading"})}}
+	n := c13aRowCount(r)
+	if mal != "" && n == 0 {
+		n = 3
+	}
+	quotesOK := r.chance(15)
+	c.quotes = quotesOK
+	base := pick(r, []string{"CHF", "EUR", "USD"})
+	curs := []string{"USD", "USD", "CHF", "EUR"}
+	stocks := []string{"AAPL", "VT", "MSFT", "BRK", "VWRL", "X5"}
+	// IB reports fractional shares, proceeds and commissions with four and more decimals and cash
+	// balances with nine; the importer rounds some of them to two places
+	// (findings/C13-interactivebrokers-rounding.md).  Most generated statements stay within two
+	// decimals, where rounding changes nothing; "fractional" ones use IB's precision and state the
+	// exact amounts as facts.
+	fractional := mal == "" && r.chance(12)
+	if fractional {
+		c.note = "fractional"
+	}
+	exact := func(q *big.Rat) *big.Rat {
+		if fractional {
+			return q
+		}
+		return c13bRound2(q)
+	}
+	dts := c13aNewDates(r)
+	start := dts.cur.AddDate(0, 0, -r.intn(20))
+	sections := map[string][][]string{}
+	hold := map[string]*big.Rat{}
+	change := func(com string, q *big.Rat) {
+		if hold[com] == nil {
+			hold[com] = new(big.Rat)
+			if r.chance(60) {
+				hold[com] = big.NewRat(int64(r.intn(1000000)), 100)
+				c.opening = append(c.opening, c13bTerm{com, c13bCanon(hold[com])})
+			}
+		}
+		hold[com].Add(hold[com], q)
+	}
+	last := start
+	bad := -1
+	if mal != "" && mal != "acct" {
+		bad = r.intn(n)
+	}
+	for i := 0; i < n; i++ {
+		t := dts.next()
+		last = t
+		day := c13aISO(t)
+		cur := pick(r, curs)
+		var row []string
+		section := ""
+		fact := func(terms ...c13bTerm) {
+			c.facts = append(c.facts, c13bFact{day, terms})
+			for _, tm := range terms {
+				change(tm.cur, c13aRat(tm.amount))
+			}
+		}
+		stamp := fmt.Sprintf("%s, %02d:%02d:%02d", day, r.intn(24), r.intn(60), r.intn(60))
+		switch k := r.intn(12); {
+		case k <= 3: // stock trade
+			section = "Trades"
+			stock := pick(r, stocks)
+			qty := big.NewRat(int64(1+r.intn(3000)), 1)
+			qd := 0
+			if fractional && r.chance(50) {
+				qty, qd = big.NewRat(int64(1+r.intn(300000)), 10000), 4
+			} else if r.chance(20) {
+				qty, qd = big.NewRat(int64(1+r.intn(30000)), 100), 2
+			}
+			price := big.NewRat(int64(1+r.intn(5000000)), 10000)
+			sell := r.chance(40)
+			proceeds := new(big.Rat).Mul(qty, price)
+			if sell {
+				qty.Neg(qty)
+			} else {
+				proceeds.Neg(proceeds)
+			}
+			fee := exact(big.NewRat(-int64(r.intn(200000)), 100000))
+			feeText := c13bCanon(fee)
+			if r.chance(30) {
+				feeText = fee.FloatString(5)
+			}
+			proceeds = exact(proceeds)
+			pd := 2
+			if fractional {
+				pd = pick(r, []int{4, 6})
+			}
+			row = []string{"Trades", "Data", "Order", "Stocks", cur, stock, stamp, c13bIBNum(r, qty, qd), c13bIBNum(r, price, 4), price.FloatString(2),
+				c13bIBNum(r, proceeds, pd), feeText, "0", "0", "0", "40.425", pick(r, []string{"O", "C", "O;P", ""})}
+			prText, _ := new(big.Rat).SetString(strings.ReplaceAll(row[10], ",", ""))
+			fact(c13bTerm{stock, qty.FloatString(4)}, c13bTerm{cur, prText.FloatString(6)}, c13bTerm{cur, fee.FloatString(5)})
+		case k <= 5: // currency trade
+			section = "Trades"
+			other := pick(r, curs)
+			for other == cur {
+				other = pick(r, []string{"CHF", "EUR", "USD", "GBP"})
+			}
+			qty := big.NewRat(int64(1+r.intn(3000000)), 100)
+			price := big.NewRat(int64(50000+r.intn(100000)), 100000)
+			proceeds := new(big.Rat).Mul(qty, price)
+			if r.chance(50) {
+				qty.Neg(qty)
+			} else {
+				proceeds.Neg(proceeds)
+			}
+			fee := exact(big.NewRat(-int64(r.intn(30000)), 10000))
+			proceeds = exact(proceeds)
+			row = []string{"Trades", "Data", "Order", "Forex", cur, other + "." + cur, stamp, c13bIBNum(r, qty, pick(r, []int{0, 2})), price.FloatString(5), "",
+				c13bIBNum(r, proceeds, 5), c13bCanon(fee), "", "", "", "3.446", ""}
+			qt, _ := new(big.Rat).SetString(strings.ReplaceAll(row[7], ",", ""))
+			pt, _ := new(big.Rat).SetString(strings.ReplaceAll(row[10], ",", ""))
+			fact(c13bTerm{other, qt.FloatString(2)}, c13bTerm{cur, pt.FloatString(5)}, c13bTerm{base, fee.FloatString(4)})
+		case k <= 7:
+			section = "Deposits & Withdrawals"
+			q := big.NewRat(int64(r.intn(2000000))-500000, 100)
+			if fractional && r.chance(50) {
+				q = big.NewRat(int64(r.intn(2000000)), 1000)
+			}
+			row = []string{section, "Data", cur, day, pick(r, []string{"Electronic Fund Transfer", "Disbursement Initiated by John Doe", c13aText(r, false, quotesOK)}), c13bIBNum(r, q, 3)}
+			qt, _ := new(big.Rat).SetString(strings.ReplaceAll(row[5], ",", ""))
+			fact(c13bTerm{cur, qt.FloatString(3)})
+		case k <= 9:
+			stock := pick(r, stocks)
+			q := big.NewRat(int64(1+r.intn(100000)), 100)
+			desc := stock + "(US0378331005) Cash Dividend " + cur + " 0.77 per Share (Ordinary Dividend)"
+			if r.chance(20) {
+				desc = pick(r, []string{" ", "(", ""}) + stock + " " + c13aText(r, false, quotesOK)
+			}
+			if r.chance(40) {
+				section = "Withholding Tax"
+				q.Neg(q)
+				row = []string{section, "Data", cur, day, desc + " - US Tax", c13bIBNum(r, q, 2), ""}
+			} else {
+				section = "Dividends"
+				row = []string{section, "Data", cur, day, desc, c13bIBNum(r, q, 2)}
+			}
+			fact(c13bTerm{cur, q.FloatString(2)})
+		default:
+			section = "Interest"
+			q := big.NewRat(int64(r.intn(20000))-15000, 100)
+			row = []string{section, "Data", cur, day, cur + " Debit Interest for " + t.Format("Jan-2006"), c13bIBNum(r, q, 2)}
+			fact(c13bTerm{cur, q.FloatString(2)})
+		}
+		if i == bad {
+			di := map[string]int{"Trades": 6, "Deposits & Withdrawals": 3, "Dividends": 3, "Withholding Tax": 3, "Interest": 3}[section]
+			ai := map[string]int{"Trades": 10, "Deposits & Withdrawals": 5, "Dividends": 5, "Withholding Tax": 5, "Interest": 5}[section]
+			ci := map[string]int{"Trades": 4, "Deposits & Withdrawals": 2, "Dividends": 2, "Withholding Tax": 2, "Interest": 2}[section]
+			switch mal {
+			case "date":
+				row[di] = pick(r, []string{"2020-02-30", "2021-02-29", "2020-13-01", "2020-00-10"}) + row[di][10:]
+			case "datefmt":
+				row[di] = pick(r, []string{"02.01.2020", "2020-1-1", "20200101", "2020/01/01, 10:00:00", ""})
+			case "amount":
+				row[ai] = pick(r, append(c13aBadAmounts, ""))
+			case "cur":
+				row[ci] = pick(r, c13aBadCurs)
+			case "cols":
+				row = row[:len(row)-1-r.intn(2)]
+			}
+		}
+		sections[section] = append(sections[section], row)
+	}
+	end := last.AddDate(0, 0, r.intn(10))
+	endDay := c13aISO(end)
+	var out [][]string
+	add := func(fields ...string) { out = append(out, fields) }
+	add("Statement", "Header", "Field Name", "Field Value")
+	add("Statement", "Data", "BrokerName", "Interactive Brokers")
+	if r.chance(50) {
+		add("Statement", "Data", "Title", "Activity Statement")
+	}
+	add("Statement", "Data", "Period", start.Format("January 2, 2006")+" - "+end.Format("January 2, 2006"))
+	add("Account Information", "Header", "Field Name", "Field Value")
+	add("Account Information", "Data", "Name", pick(r, []string{"John Doe", "Jörg \"JM\" Müller", "A, B"}))
+	add("Account Information", "Data", "Base Currency", base)
+	if r.chance(60) {
+		add("Net Asset Value", "Header", "Asset Class", "Prior Total", "Current Long", "Current Short", "Current Total", "Change")
+		add("Net Asset Value", "Data", "Cash ", "1000", "2000", "0", "2000", "1000")
+		add("Net Asset Value", "Data", "Total", "1000", "2000", "0", "2000", "1000")
+	}
+	// the positions at the end of the period: what the account held before plus the imported changes
+	coms := make([]string, 0, len(hold))
+	for com := range hold {
+		coms = append(coms, com)
+	}
+	sort.Strings(coms)
+	isCur := map[string]bool{"CHF": true, "EUR": true, "USD": true, "GBP": true}
+	if len(coms) > 0 {
+		add("Open Positions", "Header", "DataDiscriminator", "Asset Category", "Currency", "Symbol", "Quantity", "Mult", "Cost Price", "Cost Basis", "Close Price", "Value", "Unrealized P/L", "Unrealized P/L %", "Code")
+	}
+	for _, com := range coms {
+		if !isCur[com] && r.chance(80) {
+			add("Open Positions", "Data", "Summary", "Stocks", "USD", com, c13bCanon(hold[com]), "1", "100.00", "100.00", "100.00", "100.00", "100.00", "100.00", "")
+			c.asserts = append(c.asserts, c13bFact{endDay, []c13bTerm{{com, c13bCanon(hold[com])}}})
+		}
+	}
+	if len(coms) > 0 {
+		add("Open Positions", "Total", "", "Stocks", "USD", "", "", "", "", "100.00", "", "100.00", "100.00", "", "")
+		add("Forex Balances", "Header", "Asset Category", "Currency", "Description", "Quantity", "Cost Price", "Cost Basis in "+base, "Close Price", "Value in "+base, "Unrealized P/L in "+base, "Code")
+	}
+	for _, com := range coms {
+		if isCur[com] && r.chance(80) {
+			q := new(big.Rat).Set(hold[com]) // the exact cash balance
+			add("Forex Balances", "Data", "Forex", base, com, c13bIBNum(r, q, 9), "1", "-320.07", "1", "320.07", "0", "")
+			c.asserts = append(c.asserts, c13bFact{endDay, []c13bTerm{{com, c13bCanon(q)}}})
+		}
+	}
+	if len(coms) > 0 {
+		add("Forex Balances", "Total", "", "", "", "", "", "100", "", "100", "0", "")
+	}
+	order := []string{"Trades", "Deposits & Withdrawals", "Dividends", "Withholding Tax", "Interest"}
+	headers := map[string][]string{
+		"Trades": {"Trades", "Header", "DataDiscriminator", "Asset Category", "Currency", "Symbol", "Date/Time", "Quantity", "T. Price", "C. Price", "Proceeds", "Comm/Fee", "Basis", "Realized P/L", "Realized P/L %", "MTM P/L", "Code"},
+		"Deposits & Withdrawals": {"Deposits & Withdrawals", "Header", "Currency", "Settle Date", "Description", "Amount"},
+		"Dividends":              {"Dividends", "Header", "Currency", "Date", "Description", "Amount"},
+		"Withholding Tax":        {"Withholding Tax", "Header", "Currency", "Date", "Description", "Amount", "Code"},
+		"Interest":               {"Interest", "Header", "Currency", "Date", "Description", "Amount"}}
+	for _, sec := range order {
+		rows := sections[sec]
+		if len(rows) == 0 && r.chance(70) {
+			continue
+		}
+		out = append(out, headers[sec])
+		out = append(out, rows...)
+		switch sec {
+		case "Trades":
+			if len(rows) > 0 {
+				add("Trades", "SubTotal", "", "Stocks", "USD", "AAPL", "", "7", "", "", "-70.00", "-1.00", "71", "0", "0", "40.425", "")
+				add("Trades", "Total", "", "Stocks", "USD", "", "", "", "", "", "-70.00", "-1.00", "71", "0", "0", "40.425", "")
+			}
+		case "Withholding Tax":
+			add(sec, "Data", "Total", "", "", "-1.23", "")
+			add(sec, "Data", "Total in "+base, "", "", "-1.11", "")
+		default:
+			add(sec, "Data", "Total", "", "", "1000")
+			if r.chance(50) {
+				add(sec, "Data", "Total in "+base, "", "", "900.5")
+			}
+		}
+	}
+	if r.chance(50) {
+		add("Codes", "Header", "Code", "Meaning")
+		add("Codes", "Data", "O", "Opening Trade")
+	}
+	var b strings.Builder
+	for _, fields := range out {
+		for k, f := range fields {
+			if k > 0 {
+				b.WriteByte(',')
+			}
+			if strings.ContainsAny(f, ",\"") || strings.HasPrefix(f, " ") {
+				b.WriteString("\"" + strings.ReplaceAll(f, "\"", "\"\"") + "\"")
+			} else {
+				b.WriteString(f)
+			}
+		}
+		b.WriteString("\n")
+	}
+	c.file = []byte(b.String())
+	return c
+}
+
 // ---------------------------------------------------------------- generator entry
 
 var c13bGenFuncs = map[string]func(r *rng, mal string) c13bCase{
 	"revolut2": c13bGenRevolut2, "revolut": c13bGenRevolut, "wise": c13bGenWise,
-	"swissquote": c13bGenSwissquote,
+	"swissquote": c13bGenSwissquote, "interactivebrokers": c13bGenIB,
 }
 
 var c13bMalKinds = []string{"date", "datefmt", "amount", "cols", "cur", "acct"}
